@@ -62,13 +62,28 @@ func pMessage(k int, big bool) []byte {
 type pInfra string
 
 type pSink struct {
-	mu    sync.Mutex
-	ln    net.Listener
-	pc    net.PacketConn
-	conns []net.Conn
-	bufs  []*bytes.Buffer // per connection, in accept order
-	addr  string
-	proto string
+	mu       sync.Mutex
+	ln       net.Listener
+	lnDone   chan struct{} // closed when the accept loop of ln has ended
+	pc       net.PacketConn
+	conns    []net.Conn
+	bufs     []*bytes.Buffer // per connection, in accept order
+	arrivals [][]byte        // complete lines in the order they arrived, across connections
+	peers    []int           // the producer's local port of every accepted connection, in accept order
+	closed   map[int]bool    // producer-side ports whose sink side we have closed
+	addr     string
+	proto    string
+}
+
+// lines moves the complete lines of buf to arrivals (called with the lock held)
+func (s *pSink) lines(buf *bytes.Buffer) {
+	for {
+		i := bytes.IndexByte(buf.Bytes(), '\n')
+		if i < 0 {
+			return
+		}
+		s.arrivals = append(s.arrivals, append([]byte{}, buf.Next(i + 1)[:i]...))
+	}
 }
 
 func (s *pSink) start() error {
@@ -91,6 +106,7 @@ func (s *pSink) start() error {
 				}
 				s.mu.Lock()
 				buf.Write(b[:n])
+				s.lines(buf)
 				s.mu.Unlock()
 			}
 		}()
@@ -100,10 +116,12 @@ func (s *pSink) start() error {
 	if err != nil {
 		return err
 	}
+	done := make(chan struct{})
 	s.mu.Lock()
-	s.ln = ln
+	s.ln, s.lnDone = ln, done
 	s.mu.Unlock()
 	go func() {
+		defer close(done)
 		for {
 			c, err := ln.Accept()
 			if err != nil {
@@ -113,6 +131,9 @@ func (s *pSink) start() error {
 			s.mu.Lock()
 			s.conns = append(s.conns, c)
 			s.bufs = append(s.bufs, buf)
+			if ta, ok := c.RemoteAddr().(*net.TCPAddr); ok {
+				s.peers = append(s.peers, ta.Port)
+			}
 			s.mu.Unlock()
 			go func() {
 				b := make([]byte, 1<<16)
@@ -120,6 +141,7 @@ func (s *pSink) start() error {
 					n, err := c.Read(b)
 					s.mu.Lock()
 					buf.Write(b[:n])
+					s.lines(buf)
 					s.mu.Unlock()
 					if err != nil {
 						return
@@ -133,19 +155,55 @@ func (s *pSink) start() error {
 
 func (s *pSink) stop() {
 	s.mu.Lock()
-	if s.ln != nil {
-		s.ln.Close()
-		s.ln = nil
+	ln, done := s.ln, s.lnDone
+	s.ln = nil
+	s.mu.Unlock()
+	if ln != nil {
+		ln.Close()
+		<-done // nothing is accepted behind our back any more
 	}
+	s.mu.Lock()
 	if s.pc != nil {
 		s.pc.Close()
 		s.pc = nil
 	}
 	for _, c := range s.conns {
+		if ta, ok := c.RemoteAddr().(*net.TCPAddr); ok {
+			if s.closed == nil {
+				s.closed = map[int]bool{}
+			}
+			s.closed[ta.Port] = true
+		}
 		c.Close()
 	}
 	s.conns = nil
 	s.mu.Unlock()
+}
+
+// pResetSeen waits until a producer-side socket whose peer we closed has either seen the reset that answers
+// its next write (it then leaves the ESTABLISHED / CLOSE_WAIT states) or has not been written to at all.
+// On a loaded machine the reset may be delivered late; the model's gap bound assumes it has arrived
+// before the following message is written.
+func pResetSeen(port int, wait time.Duration) {
+	want := fmt.Sprintf(":%04X ", port)
+	deadline := time.Now().Add(wait)
+	for time.Now().Before(deadline) {
+		b, err := ioutil.ReadFile("/proc/net/tcp")
+		if err != nil {
+			return
+		}
+		alive := false
+		for _, line := range strings.Split(string(b), "\n") {
+			f := strings.Fields(line)
+			if len(f) > 3 && strings.HasSuffix(f[1]+" ", want) && strings.HasPrefix(f[1], "0100007F") && (f[3] == "01" || f[3] == "08") {
+				alive = true
+			}
+		}
+		if !alive {
+			return
+		}
+		time.Sleep(2 * time.Millisecond)
+	}
 }
 
 // pStart (re)starts the sink; the port may be briefly taken by somebody's outgoing connection
@@ -159,6 +217,16 @@ func pStart(s *pSink) error {
 	}
 	return err
 }
+
+// pSlow: VERIF_SLOW=<n> stretches every pause n times (a re-run in isolation of a script whose outcome
+// looked wrong on a loaded machine)
+var pSlow = func() time.Duration {
+	n, _ := strconv.Atoi(os.Getenv("VERIF_SLOW"))
+	if n < 1 {
+		n = 1
+	}
+	return time.Duration(n)
+}()
 
 func pRun(sc pScript) (res pResult) {
 	res.ID = sc.ID
@@ -189,6 +257,23 @@ func pRun(sc pScript) (res pResult) {
 	if err != nil {
 		panic(pInfra(err.Error()))
 	}
+	initPort := 0
+	if ta, ok := rs.connection.LocalAddr().(*net.TCPAddr); ok {
+		initPort = ta.Port
+	}
+	settle := func() {
+		// the connection the producer is using now: the last one accepted, else the initial one
+		sink.mu.Lock()
+		port := initPort
+		if len(sink.peers) > 0 {
+			port = sink.peers[len(sink.peers)-1]
+		}
+		dead := sink.closed[port]
+		sink.mu.Unlock()
+		if dead {
+			pResetSeen(port, 60*pSlow*time.Millisecond)
+		}
+	}
 	time.Sleep(3 * time.Millisecond)
 	ch := make(chan []byte)
 	done := make(chan struct{})
@@ -202,7 +287,7 @@ func pRun(sc pScript) (res pResult) {
 		for next < len(sc.Script) && int(sc.Script[next][1].(float64)) == k {
 			// everything handed over so far has been processed (the channel is unbuffered): the fault falls between messages
 			if sc.Script[next][0].(string) == "die" {
-				time.Sleep(3 * time.Millisecond) // let the sink read what is in flight: a death loses nothing already written
+				time.Sleep(3 * pSlow * time.Millisecond) // let the sink read what is in flight: a death loses nothing already written
 				sink.stop()
 				res.Events = append(res.Events, pEvent{Ev: "die"})
 			} else {
@@ -211,7 +296,7 @@ func pRun(sc pScript) (res pResult) {
 				}
 				res.Events = append(res.Events, pEvent{Ev: "restart"})
 			}
-			time.Sleep(3 * time.Millisecond) // FIN / listen visible to the producer's side
+			time.Sleep(3 * pSlow * time.Millisecond) // FIN / listen visible to the producer's side
 			next++
 		}
 		m := pMessage(k, sc.Big)
@@ -223,7 +308,8 @@ func pRun(sc pScript) (res pResult) {
 			return
 		}
 		res.Events = append(res.Events, pEvent{Ev: "hand", M: k})
-		time.Sleep(2 * time.Millisecond) // a reset answering a write to a dead peer arrives before the next write
+		time.Sleep(2 * pSlow * time.Millisecond)
+		settle() // a reset answering a write to a dead peer has arrived before the next write
 	}
 	for next < len(sc.Script) { // faults after the last message
 		if sc.Script[next][0].(string) == "die" {
@@ -250,22 +336,21 @@ func pRun(sc pScript) (res pResult) {
 	sink.mu.Lock()
 	delivered := []int{}
 	for _, b := range sink.bufs {
-		parts := bytes.Split(b.Bytes(), []byte("\n"))
-		if len(parts[len(parts)-1]) > 0 {
+		if b.Len() > 0 {
 			res.Partial++ // an unterminated tail at connection close is not a delivery
 		}
-		for _, line := range parts[:len(parts)-1] {
-			if k, ok := msgs[string(line)]; ok {
-				delivered = append(delivered, k)
-			} else {
-				delivered = append(delivered, -1)
-				if len(res.Garbage) < 3 {
-					g := string(line)
-					if len(g) > 200 {
-						g = g[:200]
-					}
-					res.Garbage = append(res.Garbage, g)
+	}
+	for _, line := range sink.arrivals {
+		if k, ok := msgs[string(line)]; ok {
+			delivered = append(delivered, k)
+		} else {
+			delivered = append(delivered, -1)
+			if len(res.Garbage) < 3 {
+				g := string(line)
+				if len(g) > 200 {
+					g = g[:200]
 				}
+				res.Garbage = append(res.Garbage, g)
 			}
 		}
 	}
